@@ -1,5 +1,7 @@
 package simrt
 
+import "unsafe"
+
 // Pool replaces sync.Pool: deterministic, with a per-run reuse policy drawn
 // from the choice stream and poisoning of returned buffers.
 type Pool struct {
@@ -84,6 +86,9 @@ func (p *Pool) Get() interface{} {
 	p.n--
 	PoolConf.Reused++
 	raceEnable()
+	if b, ok := v.([]byte); ok && cap(b) > 0 {
+		poolAcquire(unsafe.Pointer(&b[:1][0]))
+	}
 	return v
 }
 
@@ -92,6 +97,9 @@ func (p *Pool) Get() interface{} {
 //go:norace
 func (p *Pool) Put(v interface{}) {
 	Yield(sitePool)
+	if b, ok := v.([]byte); ok && cap(b) > 0 {
+		poolRelease(unsafe.Pointer(&b[:1][0]))
+	}
 	raceDisable()
 	p.sync()
 	PoolConf.Puts++
